@@ -12,11 +12,17 @@ class Refusal(Exception):
 
 
 TRANSLATORS: Dict[str, Callable[[], str]] = {}
+FALLBACKS: Dict[str, str] = {}
 
 
-def translator(name: str):
+def translator(name: str, fallback: str = ""):
+    """`fallback` is the text written when the translator refuses: definitions of the same names with
+    empty content, so that the executable models still build while every theorem about the artefact
+    fails."""
+
     def deco(f):
         TRANSLATORS[name] = f
+        FALLBACKS[name] = fallback
         return f
 
     return deco
@@ -43,10 +49,10 @@ def regenerate_all() -> Dict[str, str]:
             text = f()
         except Refusal as e:
             errors[name] = str(e)
-            text = f"(* translator refused: {str(e).replace('*)', '* )')} *)\nDefinition translator_refused_{name.replace('.', '_')} : True := I.\n"
+            text = f"(* translator refused: {str(e).replace('*)', '* )')} *)\n" + FALLBACKS.get(name, "")
         except Exception as e:  # noqa: BLE001 - fail closed on anything
             errors[name] = f"translator crashed: {type(e).__name__}: {e}"
-            text = f"(* translator crashed *)\nDefinition translator_refused_{name.replace('.', '_')} : True := I.\n"
+            text = "(* translator crashed *)\n" + FALLBACKS.get(name, "")
         header = "(* GENERATED from /repo on every run by tools/fv/translators - do not edit. *)\n"
         text = header + text
         if not target.exists() or target.read_text() != text:
